@@ -178,6 +178,20 @@ def run_shard(mode, cfgs, sub_seed):
                 for given, note in ((props(root, d, w, a, ns), "no-yaml:same"), (props(root, 2, 2, "MD5", ns), "no-yaml:other")):
                     reopen_and_judge(res, FHS, root, ("no-yaml",), given, populated, cb, note)
                 rmtree(root)
+                # an existing directory (empty, or holding unrelated files) and a refused open: nothing may change
+                for given_mod, note in ((dict(store_algorithm="sha256"), "existing-dir:unsupported-algo"),
+                                        (dict(store_depth="x"), "existing-dir:bad-int"),
+                                        (dict(store_width=None), "existing-dir:none-key")):
+                    for unrelated in (False, True):
+                        ed = os.path.join(scratch, "existing")
+                        os.makedirs(ed)
+                        if unrelated:
+                            with open(os.path.join(ed, "README.txt"), "w") as fh:
+                                fh.write("not a store")
+                        g = props(ed, d, w, a, ns)
+                        g.update(given_mod)
+                        reopen_and_judge(res, FHS, ed, ("not-a-store",), g, False, cb, note)
+                        rmtree(ed)
                 # unsupported algorithm for a brand-new store: nothing may be created
                 for sp in ("sha256", "SHA-224", "md5", "BLAKE2B", "SHA256"):
                     fresh = os.path.join(scratch, "fresh")
